@@ -49,51 +49,77 @@ def exact_float(fr):
 
 # ------------------------------------------------------------------ generators
 
-def gen_breaks(rng, nseg, lo, width, bits):
-    while True:
-        inner = sorted(set(C.dyadic(rng, lo, lo + width, bits) for _ in range(nseg + 4)))
-        if len(inner) >= nseg + 1:
-            b = sorted(rng.sample(inner, nseg + 1))
-            if min(b[i + 1] - b[i] for i in range(nseg)) >= width / 64.0:
-                return b
+def normal_cond(k, b, xs, ws):
+    """2-norm condition number of the normal matrix A^T W A (float model of the design; generator-side only)."""
+    import numpy as np
+    sp = b[1] - b[0]
+    gb = [b[0] - sp * i for i in range(k - 1, 0, -1)] + list(b) + [b[-1] + sp * i for i in range(1, k)]
+    m = len(gb) - k
+    rows = []
+    for x in xs:
+        l = k - 1
+        while x > gb[l + 1] and l < m - 1:
+            l += 1
+        v = [1.0]
+        dp, dm = [], []
+        for j in range(k - 1):
+            dp.append(gb[l + j + 1] - x)
+            dm.append(x - gb[l - j])
+            prev, nv = 0.0, []
+            for r in range(j + 1):
+                vm = v[r] / (dp[r] + dm[j - r])
+                nv.append(vm * dp[r] + prev)
+                prev = vm * dm[j - r]
+            nv.append(prev)
+            v = nv
+        row = [0.0] * m
+        row[l - k + 1:l + 1] = v
+        rows.append(row)
+    R = np.array(rows)
+    A = R.T @ (np.array(ws)[:, None] * R)
+    try:
+        return float(np.linalg.cond(A))
+    except Exception:  # noqa: BLE001
+        return float('inf')
 
 
 def gen_fit(rng, idx):
+    """Well-supported, well-conditioned problem on coarse dyadic grids (exact rational solves in Coq stay
+    below ~400 bits; cond(A^T W A) <= 1e6 so that float64 Cholesky is good to ~1e-9)."""
+    while True:
+        c = gen_fit_once(rng, idx)
+        if normal_cond(c['nord'], c['bkpt'], c['xs'], c['ws']) <= 1e6:
+            return c
+        idx += 6 * rng.randint(1, 5) if rng.random() < 0.5 else 0
+
+
+def gen_fit_once(rng, idx):
     k = 1 + idx % 6
-    nseg = rng.randint(1, min(6, 13 - k))
+    nseg = rng.randint(1, max(1, min(5, 9 - k)))
     poly = (idx // 6) % 3 == 0
-    bits = 6
-    lo = C.dyadic(rng, -2, 2, 2)
-    width = rng.choice([2, 4])
-    b = gen_breaks(rng, nseg, lo, width, 4)
+    uniform = (idx // 18) % 2 == 0
+    lo = float(rng.randint(-2, 2))
+    b = [lo]
+    for _ in range(nseg):
+        b.append(b[-1] + (1.0 if uniform else rng.choice([0.5, 1.0, 1.5, 2.0])))
+    xbits = 3 if k <= 3 else 4
     xs, ws = [], []
     for s in range(nseg):
-        need = k + rng.randint(0, 3)
-        cand = set()
-        while len(cand) < need + 2:
-            cand.add(C.dyadic(rng, b[s], b[s + 1], bits))
-            if len(cand) < need + 2 and (b[s + 1] - b[s]) * (1 << bits) < need + 3:
-                bits += 1
-        cand = sorted(cand)
+        # the segment owns (b[s], b[s+1]] (left-open interval search), the first one also its left end
+        grid = [b[s] + i / (1 << xbits) for i in range(0 if s == 0 else 1, int((b[s + 1] - b[s]) * (1 << xbits)) + 1)]
+        need = min(len(grid), k + rng.randint(0, 2))
+        if need < k:
+            return gen_fit_once(rng, idx + 6 * rng.randint(1, 5))
+        cand = sorted(rng.sample(grid, min(len(grid), need + rng.randint(0, 2))))
         good = set(rng.sample(cand, need))
         for x in cand:
-            if x in xs:
-                continue
             xs.append(x)
-            ws.append(C.dyadic(rng, 0.25, 4, 4) if x in good else 0.0)
-    order = sorted(range(len(xs)), key=lambda i: xs[i])
-    xs = [xs[i] for i in order]
-    ws = [ws[i] for i in order]
-    # a shared boundary point may have been dropped as duplicate: re-check support per segment
-    for s in range(nseg):
-        cnt = sum(1 for x, w in zip(xs, ws) if w > 0 and b[s] <= x <= b[s + 1])
-        if cnt < k:
-            return gen_fit(rng, idx)
+            ws.append(C.dyadic(rng, 0.25, 4, 2) if x in good else 0.0)
     if poly:
         cf = [rng.randint(-3, 3) for _ in range(k)]
         ys = [exact_float(sum(Fraction(c) * Fraction(x) ** p for p, c in enumerate(cf))) for x in xs]
     else:
-        ys = [C.dyadic(rng, -4, 4, 6) for _ in xs]
+        ys = [C.dyadic(rng, -4, 4, 3) for _ in xs]
     y2 = [C.dyadic(rng, -4, 4, 6) for _ in xs]
     a_, b_ = C.dyadic(rng, -2, 2, 3), C.dyadic(rng, -2, 2, 3)
     comb = [a_ * u + b_ * v for u, v in zip(ys, y2)]
@@ -262,7 +288,9 @@ def correspond(ctx, proof_ok=True):
             if st == -1 and r['mask_after'] == r['mask_before']:
                 viol('C09:fit:ill-posed:status-1-mask-unchanged', 'status -1 but the breakpoint mask did not change (%s)' % c['kind'], c, r)
             it = r.get('iterfit', {})
-            if 'err' in it:
+            if it.get('err') == 'ValueError' and 'No valid data points' in it.get('msg', ''):
+                pass     # iterfit's own documented input validation (all weights non-positive)
+            elif 'err' in it:
                 viol('C09:iterfit:ill-posed:impl=%s' % it['err'], 'iterfit on an ill-posed problem (%s) raised %s: %s' % (
                     c['kind'], it['err'], it.get('msg', '')), c, r)
             elif it and not it.get('finite', True):
